@@ -14,6 +14,10 @@ pub mod c09;
 pub mod c10;
 #[cfg(feature = "full")]
 pub mod c11;
+#[cfg(feature = "b3")]
+pub mod c12;
+#[cfg(feature = "b3")]
+pub mod c13;
 #[cfg(feature = "full")]
 pub mod c14;
 #[cfg(feature = "full")]
@@ -53,6 +57,10 @@ pub fn subs(prop: &str) -> Vec<Box<dyn DynSub>> {
         "C10" => c10::subs(),
         #[cfg(feature = "full")]
         "C11" => c11::subs(),
+        #[cfg(feature = "b3")]
+        "C12" => c12::subs(),
+        #[cfg(feature = "b3")]
+        "C13" => c13::subs(),
         #[cfg(feature = "full")]
         "C14" => c14::subs(),
         #[cfg(feature = "full")]
